@@ -430,6 +430,11 @@ func (pkgGen *HttpPackageGenerator) genRouter(pkg *HttpPackage, root *RouterNode
 		mws := []string{}
 		hook := func(layer int, node *RouterNode) error {
 			if len(node.Children) == 0 {
+				// a leaf declares no group middleware, but its handler middleware function
+				// shares the file with all the others and must be unique as well
+				if len(node.HandlerMiddleware) != 0 {
+					mws, node.HandlerMiddleware = appendMw(mws, node.HandlerMiddleware)
+				}
 				return nil
 			}
 			groupMwName := node.GroupMiddleware
